@@ -233,6 +233,11 @@ def cases(tier):
                     else:
                         out.append((order, 1, 'json', False, 0, conn, None))
                     out.append((order, 2, 'json', False, 1, conn, None))
+        # a target that starts refusing connections in the middle of its modulus probes, before / after targets whose moduli are still to be probed
+        for order in (('GEXTHROTTLE', 'GEX1024'), ('GEXTHROTTLE', 'GEX4096'), ('GEXTHROTTLE', 'GEXFALLBACK'), ('GEX1024', 'GEXTHROTTLE'), ('GEXTHROTTLE', 'GEXTHROTTLE', 'GEX1024')):
+            for fmt in ('text', 'json'):
+                out.append((order, 1, fmt, False, 0, conn, None))
+                out.append((order, 2, fmt, False, 1, conn, None))
         # small TCP segments, so that a single packet takes several receives, and a switch between any two of them
         for a, b in (('SSH1', 'SSH1'), ('SSH1', 'TERR'), ('TERR', 'SSH1'), ('CLEAN', 'RSA1024')):
             for seg in (16, 40):
